@@ -339,6 +339,10 @@ func init() {
 			if *d2 != *d {
 				fails = append(fails, fail("C19", "twin:NewDateFromMillis/DateFromTime", "differ for %d ms", ms))
 			}
+			// twin: the reader of the eight bytes that denote the same instant (the two constructors above share code)
+			if d3, _, rerr := data.ReadDate(u64(uint64(ms))); rerr != nil || d3 != *d {
+				fails = append(fails, fail("C19", "twin:ReadDate/NewDateFromMillis", "ReadDate of the 8-byte big-endian value %d and NewDateFromMillis(%d) differ: %x vs %x", ms, ms, d3[:], d[:]))
+			}
 		}
 		if err != nil {
 			return "err", fails
